@@ -1,7 +1,7 @@
 (** C12 -- declared shapes and dtypes match actual behaviour; bad inputs are rejected.
     Only statements; each closed by [exact] of a lemma of coq/theories/C12. *)
 From Coq Require Import List Bool ZArith Lia.
-From SV Require Import C12.Slice C12.SliceThm C12.Shape C12.Expr C12.ExprSpec C12.ExprThm.
+From SV Require Import C12.Slice C12.SliceThm C12.Shape C12.Expr C12.ExprSpec C12.ExprThm C12.Replicated.
 Import ListNotations.
 Open Scope Z_scope.
 
@@ -153,6 +153,53 @@ Theorem C12_matrix_shape_counts : forall r c cols adt v, mk_mat r c cols adt = S
   matrix_shape (osh (o_m v)) (ish (o_m v)) = if cols =? 0 then (r, c) else (r * cols, c * cols).
 Proof. exact mat_matrix_shape. Qed.
 Print Assumptions C12_matrix_shape_counts.
+
+(** * Replicated stacks (DiagonalReplicated) *)
+
+(** The constructor accepts exactly the axes of range(-(rank+1), rank+1); a negative axis
+    denotes position rank+1+a of the replicated shape. *)
+Theorem C12_replicated_axis_normalisation : forall (rank : nat) (a : Z) (k : nat),
+  norm_axis rank a = Some k <->
+  (- (Z.of_nat rank + 1) <= a <= Z.of_nat rank /\
+   Z.of_nat k = if a <? 0 then Z.of_nat rank + 1 + a else a).
+Proof. exact norm_axis_spec. Qed.
+Print Assumptions C12_replicated_axis_normalisation.
+
+(** For every conforming operand, replicate count and admissible axes (negative or not,
+    output axis explicit or defaulted to the input axis) whose output position exists: the
+    declared shapes carry the replicate count at the normalised positions and equal the
+    shapes of the vmap result and of adj on the declared output; other shapes are rejected.
+    (Defaulted output axis beyond the operand's output rank: Findings/C12_refuted.v.) *)
+Theorem C12_replicated_declared_eq_actual : forall (v w : opv) (n ia : Z) (oa : option Z) (si so : shape) (ki ko : nat),
+  ish (o_m v) = Plain si -> osh (o_m v) = Plain so ->
+  conforms v -> conforms_adj v ->
+  drep_axes (length si) (length so) ia oa = Some (ki, ko) -> (ko <= length so)%nat ->
+  op_drep_z v n ia oa = Some w ->
+  o_m w = mkmeta (Plain (insert_at ki n si)) (Plain (insert_at ko n so)) (idt (o_m v)) (odt (o_m v)) /\
+  conforms w /\ conforms_adj w /\ rejects w.
+Proof. exact drep_declared_eq_actual. Qed.
+Print Assumptions C12_replicated_declared_eq_actual.
+
+Theorem C12_replicated_explicit_axis_in_range : forall ri ro ia z ki ko,
+  drep_axes ri ro ia (Some z) = Some (ki, ko) -> (ko <= ro)%nat.
+Proof. exact drep_explicit_axis_in_range. Qed.
+Print Assumptions C12_replicated_explicit_axis_in_range.
+
+Theorem C12_replicated_declared_eq_spec : forall (e : ox) (v w : opv) (n ia : Z) (oa : option Z) (si so : shape) (ki ko : nat),
+  build e = Some v -> spec e = Some (o_m v) ->
+  ish (o_m v) = Plain si -> osh (o_m v) = Plain so ->
+  drep_axes (length si) (length so) ia oa = Some (ki, ko) -> (ko <= length so)%nat ->
+  build (XDRep e n ia oa) = Some w ->
+  spec (XDRep e n ia oa) = Some (o_m w).
+Proof. exact drep_declared_eq_spec. Qed.
+Print Assumptions C12_replicated_declared_eq_spec.
+
+(** non-vacuity: a (3,4)->(3,) operand replicated 5 times at input axis -2 (middle), output axis -1 (last) *)
+Example C12_example_replicated :
+  option_map (fun v => (o_m v, o_call v (ish (o_m v), idt (o_m v)), o_adj v (osh (o_m v), odt (o_m v))))
+    (build (XDRep (XLeaf true (Plain [3; 4]) (Plain [3]) false F32 None (FPromote F32) AAuto) 5 (-2) (Some (-1))))
+  = Some (mkmeta (Plain [3; 5; 4]) (Plain [3; 5]) F32 F32, Some (Plain [3; 5], F32), Some (Plain [3; 5; 4], F32)).
+Proof. vm_compute. reflexivity. Qed.
 
 (** non-vacuity: a well-formed tree with every generic form; hypotheses are satisfiable *)
 Definition ex_leaf := XLeaf true (Plain [3; 4]) (Plain [3; 4]) false C64 None (FPromote F32) AAuto.
